@@ -110,7 +110,7 @@ func (c *Cond) String() string {
 
 // cmpCond builds the condition  a ⋈ b  for integer polynomials.
 func cmpCond(op token.Token, a, b Poly) *Cond {
-	d := pAdd(a, b, -1) // a - b ⋈ 0
+	d := pAdd(a, b, -1)        // a - b ⋈ 0
 	lt := func(p Poly) *Cond { // p < 0
 		if k, ok := p.IsConst(); ok {
 			if k < 0 {
@@ -213,6 +213,24 @@ func (n *Normer) CondOf(v ssa.Value) *Cond {
 					markOpaque(c)
 				}
 				return c
+			}
+			// err == nil / err != nil for the error result of a loop-free helper of the repository:
+			// decided by which of its returns yield nil (an error built on the spot is not nil)
+			if x.Op == token.EQL || x.Op == token.NEQ {
+				for _, pair := range [][2]ssa.Value{{x.X, x.Y}, {x.Y, x.X}} {
+					if !isNilConst(pair[1]) || !isErrorType(pair[0].Type()) {
+						continue
+					}
+					if _, bound := n.Bind[pair[0]]; bound {
+						continue
+					}
+					if nilC, ok := n.errNilCond(pair[0]); ok {
+						if x.Op == token.NEQ {
+							return cNot(nilC)
+						}
+						return nilC
+					}
+				}
 			}
 			if isBoolType(x.X.Type()) && (x.Op == token.EQL || x.Op == token.NEQ) {
 				a, b := n.CondOf(x.X), n.CondOf(x.Y)
@@ -427,8 +445,8 @@ func (n *Normer) EdgeCond(p, s *ssa.BasicBlock) *Cond {
 // Semantic comparison
 
 type condVars struct {
-	bases  map[string]map[int64]bool // base -> thresholds (values of -K that matter)
-	bools  map[string]bool           // name -> opaque?
+	bases map[string]map[int64]bool // base -> thresholds (values of -K that matter)
+	bools map[string]bool           // name -> opaque?
 }
 
 func collect(c *Cond, cv *condVars) {
@@ -664,7 +682,13 @@ func pureLoopFree(fn *ssa.Function) bool {
 		}
 		for _, ins := range b.Instrs {
 			switch x := ins.(type) {
-			case *ssa.Store, *ssa.Send, *ssa.Go, *ssa.Defer, *ssa.MapUpdate, *ssa.Panic:
+			case *ssa.Store:
+				// a spilled parameter / value receiver (a stack local of this very function) is not an effect
+				if a, _, ok := rootAlloc(x.Addr); ok && !a.Heap && a.Parent() == fn {
+					continue
+				}
+				return false
+			case *ssa.Send, *ssa.Go, *ssa.Defer, *ssa.MapUpdate, *ssa.Panic:
 				return false
 			case *ssa.Call:
 				// calls are allowed: their results stay uninterpreted atoms of the truth condition
@@ -673,4 +697,68 @@ func pureLoopFree(fn *ssa.Function) bool {
 		}
 	}
 	return true
+}
+
+// errNilCond: the condition under which the error value v - one result of a call to a loop-free
+// helper of the repository - is nil. Every return must be decided: nil constant, or an error
+// constructed there (errors.New, fmt.Errorf, a composite value).
+func (n *Normer) errNilCond(v ssa.Value) (*Cond, bool) {
+	idx := 0
+	call, ok := v.(*ssa.Call)
+	if ex, isEx := v.(*ssa.Extract); isEx {
+		call, ok = ex.Tuple.(*ssa.Call)
+		idx = ex.Index
+	}
+	if !ok || n.depth >= n.MaxInline || len(n.Ctx) > 3 {
+		return nil, false
+	}
+	cal := call.Common().StaticCallee()
+	if cal == nil || !isRepoFunc(cal) || cal.Blocks == nil || n.NoInline[n.P.FuncName(cal)] || !pureLoopFreeAllowCalls(cal) {
+		return nil, false
+	}
+	for _, c := range n.Ctx {
+		if c.Common().StaticCallee() == cal {
+			return nil, false
+		}
+	}
+	saved := n.Ctx
+	n.Ctx = append(append([]ssa.CallInstruction{}, saved...), call)
+	n.depth++
+	defer func() { n.Ctx = saved; n.depth-- }()
+	out := cFalse
+	for _, ret := range returnsOf(cal) {
+		if idx >= len(ret.Results) {
+			return nil, false
+		}
+		r := ret.Results[idx]
+		rc := n.ReachCond(cal, nil, ret.Block())
+		switch {
+		case isNilConst(r):
+			out = cOr(out, rc)
+		case definitelyNonNilError(r):
+			// contributes to "not nil"
+		default:
+			// an error handed on from another call: nil exactly when that one is
+			if sub, ok := n.errNilCond(r); ok {
+				out = cOr(out, cAnd(rc, sub))
+			} else {
+				name := n.Norm(r).asAtom()
+				out = cOr(out, cAnd(rc, &Cond{Kind: CBool, Name: "Eq(" + name + ",nil)"}))
+			}
+		}
+	}
+	return out, true
+}
+
+func definitelyNonNilError(v ssa.Value) bool {
+	switch x := v.(type) {
+	case *ssa.MakeInterface:
+		return true
+	case *ssa.Call:
+		switch calleeFull(x) {
+		case "errors.New", "fmt.Errorf":
+			return true
+		}
+	}
+	return false
 }
